@@ -158,14 +158,16 @@ class sptensor:
             )
             if np.min(subs) < 0:
                 raise ValueError("Subscripts must be non-negative")
-            if vals.size != subs.shape[0]:
-                raise ValueError(
-                    f"Number of subscripts ({subs.shape[0]}) and values ({vals.size}) "
-                    "must be equal"
-                )
         else:
             # In case user provides an empty array in weird format
             subs = np.array([], ndmin=2, dtype=int)
+        # One value per subscript, also when there are no subscripts at all
+        num_subs = subs.shape[0] if subs.size > 0 else 0
+        if vals.size != num_subs:
+            raise ValueError(
+                f"Number of subscripts ({num_subs}) and values ({vals.size}) "
+                "must be equal"
+            )
 
         if vals.size == 0:
             # In case user provides an empty array in weird format
